@@ -148,10 +148,36 @@ def harness_crate(name):
     src = os.path.join(VERIF, name)
     if REPO == '/repo':
         return src
-    import shutil
+    import shutil, fcntl
     dst = os.path.join(BUILD, 'crate-' + name)
-    shutil.rmtree(dst, ignore_errors=True)
-    shutil.copytree(src, dst, ignore=shutil.ignore_patterns('target', 'Cargo.lock'))
+    # one rewritten copy per check run (forked workers of the run share it; the lock serialises the first copy)
+    run_id = os.environ.setdefault('VERIF_RUN_ID', f'{os.getpid()}-{int(time.time())}')
+    marker = os.path.join(dst, '.verif-run-' + run_id)
+    os.makedirs(BUILD, exist_ok=True)
+    def copy():
+        if os.path.exists(marker):
+            return
+        shutil.rmtree(dst, ignore_errors=True)
+        shutil.copytree(src, dst, ignore=shutil.ignore_patterns('target', 'Cargo.lock'))
+        _rewrite_paths(dst)
+        open(marker, 'w').close()
+    if _NESTED[0]:
+        copy()          # called from _rewrite_paths of an outer crate: the lock is already held
+        return dst
+    with open(os.path.join(BUILD, '.crate-copy.lock'), 'w') as lk:
+        fcntl.flock(lk, fcntl.LOCK_EX)
+        _NESTED[0] += 1
+        try:
+            copy()
+        finally:
+            _NESTED[0] -= 1
+    return dst
+
+
+_NESTED = [0]
+
+
+def _rewrite_paths(dst):
     for root, _, files in os.walk(dst):
         for f in files:
             if f in ('Cargo.toml', 'build.rs'):
@@ -161,4 +187,4 @@ def harness_crate(name):
                 for sub in set(_re.findall(r'"/verif/(gen-crates/[\w-]+)"', t)):
                     t = t.replace('"/verif/' + sub + '"', '"' + harness_crate(sub) + '"')
                 open(p, 'w').write(t)
-    return dst
+
